@@ -99,11 +99,15 @@ fn bptree_enum_impl(nseq: u64, len: usize, name: &str) {
 					let ts = 100 * (1 + rng.below(5));
 					*seqno += 1;
 					let kind = [InternalKeyKind::Set, InternalKeyKind::SoftDelete, InternalKeyKind::Delete, InternalKeyKind::Replace][rng.below(4) as usize];
-					let ik = InternalKey::new(uk.clone(), *seqno, kind, ts);
-					// order key: user key, then timestamp DESCENDING
+					// sequence numbers from a small pool, so that keys EQUAL under the version order (same user key,
+					// timestamp and sequence number) but with different bytes (kind) are hit again and again
+					let sq = 1 + rng.below(3);
+					let ik = InternalKey::new(uk.clone(), sq, kind, ts);
+					// order key: user key, then timestamp DESCENDING, then sequence number DESCENDING
 					let mut ok = uk;
 					ok.push(0);
 					ok.extend_from_slice(&(u64::MAX - ts).to_be_bytes());
+					ok.extend_from_slice(&(u64::MAX - sq).to_be_bytes());
 					(ok, ik.encode())
 				} else {
 					let k = pool[(rng.below(48).min(rng.below(48))) as usize].clone(); // skewed towards the low indices
